@@ -32,12 +32,12 @@ ASSUMPTIONS = [
 EXHAUSTIVE_NOTE = "core: every single call from a catalogue of ~60 calls on each of the 3 start states, and every ordered pair of calls from a 24-call sub-catalogue on the empty circuit"
 EXAMPLES = {"quick": 1500, "thorough": 30000}
 
-UNIVERSE = ["a", "b", "c", "g", "h", "o", "u", "v", "u.x", "u.s", "u_x", "u_s", "u_g", "v.d", "1z", ""]
+UNIVERSE = ["a", "b", "c", "g", "h", "o", "u", "v", "u.x", "u.s", "u_x", "u_s", "u_g", "v.d", "1z", "", "u_x.d", "w_x.q", "u.ff.d"]
 TYPES = ["and", "or", "xor", "nand", "buf", "not", "input", "0", "1", "x", "bb_input", "bb_output",
          "foo", "AND", ""]
 BBTYPES = [["ha", ["x", "y"], ["s"]], ["ff", ["d", "clk"], ["q"]], ["src", [], ["s"]], ["ha2", ["x"], ["s", "g"]],
            ["both", ["p", "d"], ["p", "q"]]]
-INSTS = ["u", "v", "w", "u_x", "1u", ""]
+INSTS = ["u", "v", "w", "u_x", "1u", "", "u.ff", "u.x"]
 
 CHILDREN = [
     {"name": "c0", "nodes": [["x", "input", [], False], ["y", "input", [], False], ["s", "xor", ["x", "y"], True]], "bbtypes": [], "insts": []},
@@ -139,6 +139,15 @@ def _targeted():
         yield {"start": 0, "ops": [["add", "a", "input", None, None, False, False], ["add_blackbox", 0, "w", {"x": "a", "y": "a"}],
                                    ["add_blackbox", i, "w_x", {}], ["fill_blackbox", "w", 3], ["add_subcircuit", 3, "w", {}]]}
         yield {"start": 0, "ops": [["add_blackbox", i, "w_x", {}], ["add_subcircuit", 3, "w", {}]]}
+        # an instance whose name extends another instance's name with a dot; the shorter one is filled
+        yield {"start": 2, "ops": [["add_blackbox", i, "u.ff", {}], ["fill_blackbox", "u", 0]]}
+        yield {"start": 2, "ops": [["add_blackbox", i, "u.ff", {}], ["add_blackbox", i, "u_ff", {}], ["fill_blackbox", "u", 0]]}
+    # ordinary parent nodes named like the pins a nested blackbox gets when its parent is spliced in
+    for t in ("and", "buf", "input"):
+        for nm in ("w_x.d", "w_x.q"):
+            yield {"start": 0, "ops": [["add", nm, t, None, None, True, False], ["add_subcircuit", 3, "w", {}]]}
+            yield {"start": 0, "ops": [["add", "a", "input", None, None, False, False], ["add_blackbox", 0, "w", {"x": "a", "y": "a"}],
+                                       ["add", nm, t, None, None, True, False], ["fill_blackbox", "w", 3]]}
 
 
 def core(ctx):
@@ -246,7 +255,7 @@ def _stateful_case(draw, ctx):
             for pn in pins:
                 if draw(st.booleans()):
                     conns[pn] = draw(anynode)
-            nm = draw(st.sampled_from(["u", "v", "w", "i%d" % fresh] + insts + [f"{x}_x" for x in insts]))
+            nm = draw(st.sampled_from(["u", "v", "w", "i%d" % fresh] + insts + [f"{x}_x" for x in insts] + [f"{x}.ff" for x in insts]))
             op = ["add_blackbox", i, nm, conns]
         elif kind == "add_subcircuit":
             i = draw(st.integers(0, len(CHILDREN) - 1))
